@@ -204,6 +204,40 @@ func runC16(em *vEmitter, r *vRng) {
 			Human: map[string]interface{}{"acknowledged": nok}, Violation: viol})
 		ms.cleanup()
 	}
+	// the work area is empty after each COMPLETED operation - also for the command line, whose process
+	// ends when the command is done: `authenticate` with local upgrades waits 100 ms for the queued upgrade
+	// and exits; with a default parameter set that takes longer to hash, the exit falls into the upgrade
+	bin = filepath.Join(os.Getenv("VERIF_DIR"), ".build", "whawty-auth")
+	if _, err := os.Stat(bin); err == nil {
+		for k := 0; k < 3; k++ {
+			ms := mNewStore("c16w", r, 3)
+			ms.params[2].Time, ms.params[2].Memory, ms.params[2].Threads = 3, 160*1024, 1 // the default: about half a second per hash
+			ms.writeCfg()
+			ms.plant("root", true, 1, 1600000000, r.bytes(16), []byte("rootpw"), "")
+			ms.plant("alice", false, 1, 1600000001, r.bytes(16), []byte("alicepw"), "")
+			os.Mkdir(filepath.Join(ms.base, ".tmp"), 0700)
+			var outs []string
+			residue := 0
+			for i := 0; i < 2; i++ {
+				cmd := exec.Command(bin, "--store", ms.cfgfile, "--do-upgrades", "local", "authenticate", "alice", "alicepw")
+				out, err := cmd.CombinedOutput()
+				outs = append(outs, fmt.Sprintf("exit-ok=%v %s", err == nil, truncS(string(out), 80)))
+				ents, _ := os.ReadDir(filepath.Join(ms.base, ".tmp"))
+				residue = len(ents)
+				if residue > 0 {
+					break
+				}
+			}
+			c := vCase{Prop: "C16", Kind: "cli-workarea", Class: "cli/authenticate-with-slow-local-upgrade", Nontrivial: true,
+				Human: map[string]interface{}{"runs": outs, "files_left_in_tmp": residue}}
+			if residue > 0 {
+				c.Violation = fmt.Sprintf("after a completed `authenticate` command (local upgrades on, default parameter set slower than the command's 100 ms wait) "+
+					"%d file(s) are left in the work area .tmp", residue)
+			}
+			em.emit(c)
+			ms.cleanup()
+		}
+	}
 	em.emit(vCase{Prop: "C16", Kind: "stats", Class: "stats", Human: vStats})
 }
 
